@@ -184,3 +184,17 @@ def run(chk):
     C02.check_t4(chk, ml)
     chk.rule_prefix = ""
     chk.rule_filter = None
+    # the run queue and the timer queue are list_t: FIFO / sorted order rest on list.c keeping head, tail and links right (C09)
+    from . import C09
+    chk.rule_prefix = "list."
+    chk.rule_filter = lambda r: r.startswith(("N1", "N2", "N3", "N5", "N6"))
+    C09.run_rules(chk)
+    chk.rule_prefix = ""
+    chk.rule_filter = None
+    # "no request pending" is read through messageq_empty: the flag protocol behind it is C04's (R5)
+    from . import C04
+    chk.rule_prefix = "C04."
+    chk.rule_filter = lambda r: r.startswith(("R5", "R3", "R2"))
+    C04.run_config(chk, "default")
+    chk.rule_prefix = ""
+    chk.rule_filter = None
